@@ -290,3 +290,19 @@ def run(ctx):
     ctx.ob('C12.9', back[0][0] if back else 'rip_workspace::patch', 'parsed-ops-append-only', not back,
            '%d push site(s); no operation is edited or removed after it was parsed' % npush if not back else
            '%s reaches back into the parsed operations (line %s): an earlier section is rewritten by a later one instead of being followed by it' % (back[0][1].name, back[0][1].line), line=back[0][1].line if back else 0)
+
+    # ---------------------------------------------------------------- C12.10
+    ctx.rule('C12.10', 'each changed file is reported once: Vec::dedup only merges neighbours, so every dedup / dedup_by / dedup_by_key in rip_workspace, rip_tools and ripd '
+             '(the changed-files list of apply_patch, the side-effects summary of a run) is dominated by a sort of the same vector in the same function. A patch that names a.txt, b.txt, '
+             'a.txt otherwise reports three changed files for two.')
+    THR10 = (r'::deref$', r'::deref_mut$', r'::as_mut_slice$', r'::as_mut$')
+    n10 = 0
+    for g in [x for x in P.fns.values() if x.crate in ('rip_workspace', 'rip_tools', 'ripd')]:
+        for s_ in g.calls(r'Vec::<T, A>::(dedup|dedup_by|dedup_by_key)$'):
+            n10 += 1
+            root = g.root_local(s_.args[0], through_calls=THR10)
+            so = [x for x in g.calls(r'::(sort|sort_unstable|sort_by|sort_by_key|sort_unstable_by|sort_unstable_by_key|sort_by_cached_key)$')
+                  if x.args and g.root_local(x.args[0], through_calls=THR10) == root and g.dom(x.bb, s_.bb)]
+            ctx.ob('C12.10', g, 'dedup-after-sort:' + s_.name, bool(so), '%s %s' % (s_.name, 'follows a sort of the same vector' if so else
+                   'WITHOUT a preceding sort of that vector: only adjacent duplicates are merged, a path named by non-adjacent operations is listed more than once'), line=s_.line)
+    ctx.floor('C12.10', 'dedup sites in the workspace crates', n10, 2)
